@@ -1071,16 +1071,22 @@ class BootstrapElectionModel(BaseElectionModel):
         # between unit and contest (ie. a 1 in i,j says that unit j belongs to contest i)
         # in case district election we need to create a variable that defines the state, district
         # which is what the contest is
+        # contest level effects are estimated and sampled for the units in the model only. Units outside of it
+        # (unexpected, non-modeled) must not add contests: an extra (empty) contest changes the size of every
+        # random draw below and with it all predictions and intervals
+        expected_units = all_units.iloc[: (n_train + n_test)].copy()
         if self.district_election:  # want to model aggregate effect at both district and state levels
-            all_units["postal_code-district"] = all_units[["postal_code", "district"]].agg("_".join, axis=1)
+            expected_units["postal_code-district"] = expected_units[["postal_code", "district"]].agg("_".join, axis=1)
 
-            contest_indicator = pd.get_dummies(all_units["postal_code-district"])
-            postal_code_indicator = pd.get_dummies(all_units["postal_code"])
+            contest_indicator = pd.get_dummies(expected_units["postal_code-district"])
+            postal_code_indicator = pd.get_dummies(expected_units["postal_code"])
 
             # drop districts that are at-large districts for a state
-            postal_code_filter = all_units.groupby("postal_code")["postal_code-district"].nunique() > 1
+            postal_code_filter = expected_units.groupby("postal_code")["postal_code-district"].nunique() > 1
             valid_postal_codes = postal_code_filter[postal_code_filter].index
-            valid_districts = all_units[all_units.postal_code.isin(valid_postal_codes)]["postal_code-district"].unique()
+            valid_districts = expected_units[expected_units.postal_code.isin(valid_postal_codes)][
+                "postal_code-district"
+            ].unique()
             contest_indicator_filtered = contest_indicator.loc[:, valid_districts]
 
             # drop contest indicators if there are fewer than 10 units in contest
@@ -1096,7 +1102,7 @@ class BootstrapElectionModel(BaseElectionModel):
                 (postal_code_indicator.values, contest_indicator_filtered.values), axis=1
             )
         else:
-            contest_indicator = pd.get_dummies(all_units["postal_code"])
+            contest_indicator = pd.get_dummies(expected_units["postal_code"])
             self.aggregate_names = {c: i for i, c in enumerate(contest_indicator.columns.tolist())}
             aggregate_indicator = contest_indicator.values
 
